@@ -167,10 +167,39 @@ theorem excess_call_rejected (cap : Nat) (es : List Ev) :
 /-- a timeout firing does not free a slot: only the return of the wrapped handler does -/
 theorem timeout_fire_keeps_slot (s : St) : (step s .fire).1 = s := rfl
 
+/-- once every abandoned handler has returned all slots are free again: the next call is started, not rejected -/
+theorem slots_return_when_handlers_finish (cap : Nat) (es : List Ev) (hc : 0 < cap) :
+    let s := finishAll (run (init cap) es).running (run (init cap) es)
+    s.running = 0 ∧ (step s .call).2 = .started := by
+  intro s
+  have hinv := sem_run_inv es (init cap) ⟨rfl, Nat.zero_le _⟩
+  have key : ∀ (n : Nat) (t : St), SemInv t → t.running = n → t.cap = cap →
+      SemInv (finishAll n t) ∧ (finishAll n t).running = 0 ∧ (finishAll n t).cap = cap := by
+    intro n
+    induction n with
+    | zero => intro t ht hr hcap; exact ⟨ht, hr, hcap⟩
+    | succ k ih =>
+      intro t ht hr hcap
+      have h1 := sem_step_inv t .finish ht
+      have hrun : (step t .finish).1.running = k := by
+        have hpos : 0 < t.running := by omega
+        simp [step, hpos]; omega
+      exact ih _ h1.1 hrun (h1.2.trans hcap)
+  have hk := key (run (init cap) es).running (run (init cap) es) hinv.1 rfl hinv.2
+  refine ⟨hk.2.1, ?_⟩
+  have hi : s.running = s.tokens ∧ s.tokens ≤ s.cap := hk.1
+  have hlt : s.tokens < s.cap := by
+    have h0 : s.running = 0 := hk.2.1
+    have hcap : s.cap = cap := hk.2.2
+    omega
+  simp [step, hlt]
+
 /-! non-vacuity: Concurrency 1, a handler that outlives its timeout, then two more requests: both 429; once it returned, 200 -/
 example : serve (init 1) [true, false, true] = [408, 429, 429] := by decide
 example : serve (init 2) [true, false, true, false] = [408, 200, 408, 429] := by decide
 example : (run (init 1) [.call, .fire, .call, .finish, .call]).running = 1 := by decide
+-- Concurrency 2: two handlers time out (408, 408), the third call is rejected (429); they return; the next calls are served
+example : serveTok (init 2) [1, 1, 0, 2, 0, 1] = [408, 408, 429, 200, 408] := by decide
 end Sem
 
 end Fh.Props.C16
